@@ -138,7 +138,11 @@ def run(ctx, F, cg):
         ctx.saw_fn(r["path"]); ctx.saw_calls(len(b.calls()))
         short = r["path"].replace(OPS, "")
         creates = [c for c in b.calls() if c.path.rsplit("::", 1)[-1].startswith("create_node") and "GraphStore" in c.path]
-        lookups = {c.bb for c in b.calls() if c.path.rsplit("::", 1)[-1] in ("get_nodes_by_label", "all_nodes", "node_ids_by_label", "get_index", "nodes_with_label")}
+        LOOK = ("get_nodes_by_label", "all_nodes", "node_ids_by_label", "get_index", "nodes_with_label")
+        from ..wrappers import thin_wrappers
+        # a search helper of the operator that performs a lookup on every path (label or no label) is the lookup
+        lookw = thin_wrappers(F, lambda c_: c_.rsplit("::", 1)[-1] in LOOK and "GraphStore" in c_, OPS + "MergeOperator::")
+        lookups = {c.bb for c in b.calls() if c.path.rsplit("::", 1)[-1] in LOOK or c.path in lookw}
         # the search must not be conditional on the pattern having a label: from the None side of every
         # `labels.first()` test, a create is reachable only through a lookup
         bad = None
